@@ -148,6 +148,18 @@ def run(prop, cfg, tier, seed):
     if cfg.get("mid_leaders"):
         from . import mid_check
         nq_m, nt_m = cfg["mid_leaders"]
+        # ... and the marks the REAL entry point (builder.PrepareGrammar: its own visiting order, Go's map order) leaves on the rules
+        # are the ones of the model of the analysis with the sorted visiting order: which rules run the seed-growing loop, and
+        # which are exempt from the expression memo, is decided by these marks (round 21: ComputeNullables in definition order)
+        pviol, pdis, pn = mid_check.prepare_vs_model(prop, seed, min(nq_m, 1500) if tier == "quick" else nt_m, 2)
+        tool_reports["prepare-vs-model"] = {"grammars": pn, "several_outcomes": len(pviol), "disagreements": len(pdis)}
+        for cl, dl, ml, why in pviol[:3]:
+            tool_fail.append({"tool": "pvmid", "kind": "marks-nondeterministic", "mid_case": cl, "det": dl[:1500], "detail": why})
+        for cl, dl, ml in pdis[:3]:
+            tool_fail.append({"tool": "pvmid", "kind": "marks-differ-from-model", "mid_case": cl, "det": dl[:1500], "model": ml[:1500],
+                              "detail": "builder.PrepareGrammar leaves other leftRecursive / leader marks (or another verdict) on this grammar than the model of the analysis with the sorted visiting order",
+                              "no_failing_input": True})
+        tool_fail += [None] * max(0, len(pviol) + len(pdis) - min(3, len(pviol)) - min(3, len(pdis)))
         mcases = mid_check.gen_mid(seed, nq_m if tier == "quick" else nt_m)
         mcases = [" ".join(["mid", str(i + 1)] + c.split(" ")[2:]) for i, c in enumerate(mcases)]
         pm = subprocess.run([mid_check.PVMID, "-run"], input=("\n".join(mcases) + "\n").encode(), stdout=subprocess.PIPE, stderr=subprocess.PIPE, timeout=1800)
